@@ -99,6 +99,12 @@ def check(ctx):
             f_ = nonid[int(rng.integers(len(nonid)))]
             inf_order = [f_] + [int(i_) for i_ in rng.permutation(nops) if i_ != f_]
             variants.append(("explicit-identity-not-first", {"rotations": rots[inf_order], "translations": trans[inf_order]}))
+        # the operations as floating-point matrices that went through the Cartesian frame and back (L^-T (L^T r L^-T) L^T): integer
+        # up to rounding, e.g. 0.9999999999999999
+        LT_ = L.T
+        rots_rt = np.array([(np.eye(3) if (r_ == np.eye(3, dtype=int)).all() else np.linalg.inv(LT_) @ (LT_ @ r_ @ np.linalg.inv(LT_)) @ LT_) for r_ in rots])   # pure translations keep the exact identity
+        if np.abs(rots_rt - rots).max() > 0:
+            variants.append(("explicit-float-roundtrip", {"rotations": rots_rt, "translations": trans.copy()}))
         proper = [i for i in range(nops) if round(np.linalg.det(rots[i])) == 1]
         if 0 < len(proper) < nops:
             variants.append(("proper-subgroup", {"rotations": rots[proper], "translations": trans[proper]}))
@@ -109,7 +115,7 @@ def check(ctx):
                 g_idx = order_
             elif vname == "explicit-rotation-major":
                 g_idx = rm
-            elif vname in ("explicit-translations-plus-representatives", "explicit-identity-not-first"):
+            elif vname in ("explicit-translations-plus-representatives", "explicit-identity-not-first", "explicit-float-roundtrip"):
                 g_idx = list(range(nops))
             else:
                 g_idx = proper
@@ -151,7 +157,7 @@ def check(ctx):
                     ctx.fail("oracle", f"C02/oracle/basis/order{order}", f"{sc['name']} ops={vname} order {order}: an expanded basis vector is not invariant under operation {arg} (r={rots[arg].tolist()}, t={trans[arg].round(6).tolist()}): relative change {worst:.2e}",
                              replay={"cell": sc["name"], "lattice": sc["lattice"].tolist(), "positions": sc["positions"].tolist(), "numbers": [int(x) for x in sc["numbers"]], "ops": vname, "order": order, "operation": int(arg)}, has_input=True)
                 # the span of a subgroup's basis must contain the full group's basis (and equal it for the full group given in another order)
-                if vname in ("explicit-shuffled", "explicit-rotation-major", "explicit-translations-plus-representatives", "explicit-identity-not-first"):
+                if vname in ("explicit-shuffled", "explicit-rotation-major", "explicit-translations-plus-representatives", "explicit-identity-not-first", "explicit-float-roundtrip"):
                     o2 = Symfc(at)
                     o2.compute_basis_set(orders=[order])
                     F1 = np.asarray(b.compression_matrix @ b.basis_set)
